@@ -83,7 +83,12 @@ struct SchedState {
     low_prio: i64,
     change_points: Vec<u64>,
     decisions: u64,
+    /// decisions at which the policy was actually consulted (PCT change points count these)
+    policy_decisions: u64,
+    /// decisions taken at I/O operations and item boundaries (not at compute-level yields)
+    io_decisions: u64,
     last_op: Vec<(OpKind, bool)>,
+    last_target_stdout: Vec<bool>,
     switches: u64,
     panics: Vec<String>,
     handles: Vec<std::thread::JoinHandle<()>>,
@@ -229,7 +234,10 @@ impl SimWorld {
             low_prio: 0,
             change_points: vec![],
             decisions: 0,
+            policy_decisions: 0,
+            io_decisions: 0,
             last_op: vec![(OpKind::Yield, false); workers + 1],
+            last_target_stdout: vec![false; workers + 1],
             switches: 0,
             panics: vec![],
             handles: vec![],
@@ -266,6 +274,11 @@ impl SimWorld {
         let stay = me.filter(|m| cands.contains(m));
         let fallback = stay.unwrap_or(cands[0]);
         st.decisions += 1;
+        let compute_level = tag == OpKind::Yield
+            && (name.starts_with("format_") || name.starts_with("olf_") || name.starts_with("lexer_"));
+        if !compute_level {
+            st.io_decisions += 1;
+        }
         let choice = if let Some(script) = &st.script {
             let v = script.get(st.cursor).copied();
             st.cursor += 1;
@@ -273,7 +286,16 @@ impl SimWorld {
                 Some(v) if cands.contains(&v) => v,
                 _ => fallback,
             }
+        } else if name.ends_with("_wait") && cands.iter().any(|c| Some(*c) != me) {
+            // the caller spins on a (simulated) lock that another worker holds: whatever the
+            // policy, somebody else must run, and every other worker must get its turn
+            // eventually, or a high-priority waiter would starve the holder for ever
+            let others: Vec<u32> = cands.iter().copied().filter(|c| Some(*c) != me).collect();
+            *st.rng.pick(&others)
+        } else if st.policy.io_only && compute_level && stay.is_some() {
+            fallback
         } else {
+            st.policy_decisions += 1;
             match st.policy.kind {
                 PolicyKind::Sequential => fallback,
                 PolicyKind::Random => *st.rng.pick(&cands),
@@ -290,7 +312,7 @@ impl SimWorld {
                     None => cands[0],
                 },
                 PolicyKind::Pct => {
-                    if st.change_points.contains(&st.decisions) {
+                    if st.change_points.contains(&st.policy_decisions) {
                         if let Some(m) = stay {
                             st.low_prio -= 1;
                             st.prio[m as usize] = st.low_prio;
@@ -305,6 +327,7 @@ impl SimWorld {
                     Some(m) => {
                         let (last, last_failed) = st.last_op[m as usize];
                         let hot = last == OpKind::Open
+                            || st.last_target_stdout[m as usize]
                             || (last == OpKind::Read && last_failed)
                             || (last == OpKind::Write && tag == OpKind::SetLen)
                             || name.starts_with("lexer_dispatch");
@@ -442,10 +465,15 @@ impl SimWorld {
     }
 
     fn note_last_op(&self, op: OpKind, failed: bool) {
+        self.note_last_op_on(op, failed, false)
+    }
+
+    fn note_last_op_on(&self, op: OpKind, failed: bool, on_stdout: bool) {
         let id = me() as usize;
         let mut st = self.lock_sched();
         if id < st.last_op.len() {
             st.last_op[id] = (op, failed);
+            st.last_target_stdout[id] = on_stdout;
         }
     }
 
@@ -648,6 +676,7 @@ impl SimWorld {
             pure_out: g.pure_out.take(),
             items: g.items,
             wall_ms: 0,
+            policy_decisions: st.io_decisions,
         }
     }
 
@@ -673,7 +702,10 @@ impl SimWorld {
                     low_prio: 0,
                     change_points: vec![],
                     decisions: 0,
+                    policy_decisions: 0,
+                    io_decisions: 0,
                     last_op: vec![],
+                    last_target_stdout: vec![],
                     switches: 0,
                     panics: vec![],
                     handles: vec![],
@@ -1167,6 +1199,17 @@ impl World for WorldRef {
     fn stdout_write(&self, buf: &[u8]) -> io::Result<usize> {
         let w = self.0;
         let (mut g, seq, nth, fault) = w.begin(STDOUT, OpKind::Write, "stdout_write");
+        // a write through the unlocked handle takes the lock for just this write: it waits
+        // while another worker holds the lock explicitly
+        while matches!(g.stdout_locked_by, Some(o) if o != me()) {
+            g.steps += 1;
+            if g.sc.step_budget > 0 && g.steps > g.sc.step_budget {
+                w.finish_locked(&mut g, Exit::Budget);
+            }
+            drop(g);
+            w.sched_yield(OpKind::Lock, "stdout_lock_wait");
+            g = w.lock();
+        }
         let result: Result<usize, i32> = (|| {
             let pos = g.stdout.len() as u64;
             let mut limit = chunk_limit(g.write_chunking.get(STDOUT), pos, nth);
@@ -1188,6 +1231,8 @@ impl World for WorldRef {
             Err(e) => -(*e as i64),
         };
         w.end(&mut g, seq, STDOUT, OpKind::Write, buf.len() as i64, res, fault);
+        drop(g);
+        w.note_last_op_on(OpKind::Write, result.is_err(), true);
         result.map_err(errno)
     }
 
@@ -1238,19 +1283,17 @@ impl World for WorldRef {
 
     fn stdout_print(&self, text: &str) -> io::Result<()> {
         let w = self.0;
-        // std's print! takes the stdout lock: wait for a thread that holds it explicitly
-        loop {
-            let held_by_other = {
-                let g = w.lock();
-                matches!(g.stdout_locked_by, Some(o) if o != me())
-            };
-            if !held_by_other {
-                break;
-            }
-            let (mut g, seq, _, _) = w.begin(STDOUT, OpKind::Lock, "stdout_lock_wait");
-            w.end(&mut g, seq, STDOUT, OpKind::Lock, 0, 0, None);
-        }
         let (mut g, seq, _, fault) = w.begin(STDOUT, OpKind::Print, "print");
+        // std's print! takes the stdout lock: wait while another worker holds it explicitly
+        while matches!(g.stdout_locked_by, Some(o) if o != me()) {
+            g.steps += 1;
+            if g.sc.step_budget > 0 && g.steps > g.sc.step_budget {
+                w.finish_locked(&mut g, Exit::Budget);
+            }
+            drop(g);
+            w.sched_yield(OpKind::Lock, "stdout_lock_wait");
+            g = w.lock();
+        }
         let r = match &fault {
             Some(k) if !k.is_benign() => Err(fault_errno(k)),
             _ => {
@@ -1260,6 +1303,8 @@ impl World for WorldRef {
         };
         let res = r.as_ref().err().map(|e| -(*e as i64)).unwrap_or(text.len() as i64);
         w.end(&mut g, seq, STDOUT, OpKind::Print, text.len() as i64, res, fault);
+        drop(g);
+        w.note_last_op_on(OpKind::Print, r.is_err(), true);
         r.map_err(errno)
     }
 
@@ -1350,7 +1395,14 @@ impl World for WorldRef {
                 for (i, id) in ids.iter().enumerate() {
                     st.prio[*id as usize] = (i + 1) as i64;
                 }
-                let est = 40 * n as u64 + 8;
+                // decisions per item: a dozen I/O-level ones, thousands with compute-level yields
+                let est = if st.policy.horizon > 0 {
+                    st.policy.horizon
+                } else if st.policy.io_only {
+                    16 * n as u64 + 8
+                } else {
+                    400 * n as u64 + 8
+                };
                 let depth = st.policy.depth;
                 st.change_points = (0..depth).map(|_| 1 + st.rng.below(est)).collect();
             }
@@ -1370,6 +1422,10 @@ impl World for WorldRef {
         if let Some(first) = panics.into_iter().next() {
             std::panic::resume_unwind(Box::new(first));
         }
+    }
+
+    fn pool_threads(&self) -> usize {
+        self.0.lock().sc.workers.max(1)
     }
 
     fn yield_point(&self, tag: &'static str) {
